@@ -401,6 +401,24 @@ impl<S: Write + Seek> W<S> {
                     .map_err(|e| e.to_string())
                 }
                 let chunk = SRC_CHUNK.with(|c| c.get());
+                let shared_plan = SRC_PLAN.with(|p| p.borrow().clone());
+                if let Some(sp) = shared_plan {
+                    // the source archive is read through the SAME instrumented plan as the sink (its I/O calls are numbered
+                    // and can be made to fail like the sink's), in pieces of at most `chunk` bytes
+                    struct Pieces<R>(R, usize);
+                    impl<R: Read> Read for Pieces<R> {
+                        fn read(&mut self, buf: &mut [u8]) -> std::io::Result<usize> {
+                            let n = if self.1 == 0 { buf.len() } else { buf.len().min(self.1) };
+                            self.0.read(&mut buf[..n])
+                        }
+                    }
+                    impl<R: Seek> Seek for Pieces<R> {
+                        fn seek(&mut self, p: std::io::SeekFrom) -> std::io::Result<u64> {
+                            self.0.seek(p)
+                        }
+                    }
+                    return self.run(|z| copy(z, Pieces(crate::sio::inst::Inst::new(data.clone(), sp), chunk), *idx, rename, *raw_open), |_| 0);
+                }
                 self.run(
                     |z| {
                         if chunk > 0 {
@@ -456,6 +474,10 @@ pub fn exec(calls: &[Call], sources: &[Vec<u8>]) -> (Vec<Res>, Vec<u8>) {
     (out, sink.snapshot())
 }
 
+thread_local! {
+    /// when set, raw copies read their source archive through an instrumented stream driven by this plan (shared with the sink)
+    pub static SRC_PLAN: std::cell::RefCell<Option<crate::sio::inst::PlanRef>> = const { std::cell::RefCell::new(None) };
+}
 thread_local! {
     /// when non-zero, `exec_append` opens the archive through a stream that transfers at most this many bytes per call
     pub static APPEND_CHUNK: std::cell::Cell<usize> = const { std::cell::Cell::new(0) };
